@@ -185,9 +185,13 @@ impl FixtureDatabase {
 
         files_to_process.par_iter().for_each(|path| {
             debug!("Found test/conftest file: {:?}", path);
+            #[cfg(pytest_language_server_verif)]
+            let verif_gate = super::verif_hooks::scan_gate(path);
             match std::fs::read_to_string(path) {
                 Ok(content) => {
                     self.analyze_file_fresh(path.clone(), &content);
+                    #[cfg(pytest_language_server_verif)]
+                    super::verif_hooks::scan_gate_done(verif_gate);
                 }
                 Err(err) => {
                     if err.kind() == std::io::ErrorKind::PermissionDenied {
@@ -219,6 +223,9 @@ impl FixtureDatabase {
             total_files, permission_errors, errors
         );
 
+        #[cfg(pytest_language_server_verif)]
+        super::verif_hooks::event("scan_phase2_done", root_path);
+
         // Phase 3: Scan virtual environment for pytest plugins first
         // (must happen before import scanning so venv plugin files are in file_cache)
         self.scan_venv_fixtures(root_path);
@@ -227,6 +234,9 @@ impl FixtureDatabase {
         // This ensures fixtures defined in separate modules (imported via star import
         // or pytest_plugins variable) are discovered
         self.scan_imported_fixture_modules(root_path);
+
+        #[cfg(pytest_language_server_verif)]
+        super::verif_hooks::event("scan_done", root_path);
 
         info!("Total fixtures defined: {}", self.definitions.len());
         info!("Total files with fixture usages: {}", self.usages.len());
